@@ -6,6 +6,7 @@ package harness
 
 import (
 	"fmt"
+	"math/rand"
 	"os"
 	"sort"
 	"strings"
@@ -22,6 +23,7 @@ import (
 	oracletypes "github.com/elys-network/elys/x/oracle/types"
 	perptypes "github.com/elys-network/elys/x/perpetual/types"
 	toktypes "github.com/elys-network/elys/x/tokenomics/types"
+	tstypes "github.com/elys-network/elys/x/tradeshield/types"
 )
 
 func init() { modes["scn"] = runScn }
@@ -587,5 +589,53 @@ func init() {
 			&ammtypes.MsgSwapExactAmountIn{Sender: u.Addr.String(), Routes: []ammtypes.SwapAmountInRoute{{PoolId: 5, TokenOutDenom: "uusdc"}},
 				TokenIn: sdk.NewCoin("aeth", math.NewIntWithDecimal(1, 19)), TokenOutMinAmount: math.ZeroInt(), Recipient: u.Addr.String()})
 		sc.Empty(5 * time.Second)
+	}
+}
+
+
+func init() {
+	// C20 (trigger): two limit-sell orders of two owners on one pair; in ONE block a bot executes the first (its trigger is met), the
+	// feeder then moves the price below the second order's rate, and the bot asks for the second: whatever was looked up for the first
+	// request says nothing about the second — it is judged at the price in force when it runs, and has to stay untouched.
+	scenarios["c20-price-moves-between-two-executions"] = func(sc *Scn) {
+		w := sc.w
+		price := sc.std.Prices["ATOM"]
+		alice, bob, bot := w.Accts[0], w.Accts[1], w.Accts[2]
+		mk := func(u *Acct, mult string) (sdk.Msg, J) {
+			rate := price.Mul(D(mult))
+			return &tstypes.MsgCreateSpotOrder{OrderType: tstypes.SpotOrderType_LIMITSELL, OrderPrice: tstypes.OrderPrice{BaseDenom: "uatom", QuoteDenom: sc.std.USDC, Rate: rate},
+					OrderAmount: coin("uatom", math.NewInt(1_000_000)), OwnerAddress: u.Addr.String(), OrderTargetDenom: sc.std.USDC},
+				J{"type": int32(tstypes.SpotOrderType_LIMITSELL), "amount": []string{"uatom", "1000000"}, "target": sc.std.USDC, "rate": decRaw(rate)}
+		}
+		for round := 0; round < 2; round++ {
+			ma, fa := mk(alice, "0.8")
+			mb, fb := mk(bob, "0.9")
+			sc.Tx("ts.spotCreate", alice, fa, ma)
+			sc.Tx("ts.spotCreate", bob, fb, mb)
+			all := w.App.TradeshieldKeeper.GetAllPendingSpotOrder(w.Ctx())
+			if len(all) < 2 || !sc.ok {
+				return
+			}
+			ida, idb := all[len(all)-2].OrderId, all[len(all)-1].OrderId
+			exec := func(id uint64) *histTx {
+				return &histTx{kind: "ts.execute", f: J{"spot": []uint64{id}, "perp": []uint64{}, "signer": bot.Addr.String(), "fee": [][]string{}},
+					req: TxReq{Signer: bot, Msgs: []sdk.Msg{&tstypes.MsgExecuteOrders{Creator: bot.Addr.String(), SpotOrderIds: []uint64{id}}}}}
+			}
+			// the feeder's transaction in the middle: ATOM down to 0.6 of its price (below both rates)
+			h := &Hist{w: w, std: sc.std, r: rand.New(rand.NewSource(int64(round) + 7))}
+			old := sc.std.Prices["ATOM"]
+			sc.std.Prices["ATOM"] = old.Mul(D("0.6"))
+			feed := h.priceTxFixed()
+			if !emitBlock(w, sc.out, sc.id, []*histTx{exec(ida), feed, exec(idb)}, 5*time.Second, sc.stats) {
+				sc.ok = false
+				return
+			}
+			// the price comes back; the second order is cancelled by its owner if it is still there
+			sc.std.Prices["ATOM"] = old
+			if !emitBlock(w, sc.out, sc.id, []*histTx{h.priceTxFixed()}, 5*time.Second, sc.stats) {
+				sc.ok = false
+				return
+			}
+		}
 	}
 }
